@@ -100,6 +100,58 @@ CLAIMS = {
     note=COMMON_NOTE + 'File system, text decoding, sys.argv and HOME are parameters of the model (trusted).',
     technique='Lean 4 proof (list manipulation over the plan) + in-process differential test of rimuc.main',
     ref='7 C18'),
+ 'C02': dict(
+    text='(a) Termination, proved for the model: the fragmenting loop terminates within |text|+1 steps for every replacement pattern and the escaped-quote search '
+         'within |text|+2, so the inline layer never exhausts its own fuel; line-macro expansions never nest deeper than MAX_EXPANSION_DEPTH and a refused expansion '
+         'inserts nothing; every pattern iterated by sub/split/fragmenting consumes at least one character per match (regenerated facts). A fuel bound for '
+         'the block-level loops is not proved. (b) Bounded work is exploration: pumped inputs (4 KB quick / 8 KB thorough) in safe modes 1-7 must render within a '
+         'CPU-time ceiling with at most quadratic growth; recursive-macro documents must finish on the implementation whenever the model terminates.',
+    note=COMMON_NOTE + 'Partial: termination of the inline layer and the depth bound are proofs; block-level termination bound and the running time of CPython sre are '
+         'exploration (timing), as DESIGN.md says.',
+    technique='Lean 4 proof (fuel adequacy by induction using regex search bounds; expansion depth invariant) + deterministic pumping with CPU-time ceiling',
+    ref='7 C02'),
+ 'C06': dict(
+    text='Proved for the model: for every text and quote table the fragment list produced by fragQuote is a tree - text, or text / open tag of a definition / tree of the '
+         'quoted text (or one finished verbatim fragment) / close tag of the same definition / tree of the rest - so quote tags are emitted in properly nested pairs '
+         'and overlapping delimiters cannot cross; a delimited block writes open tag, content, close tag adjacently; every generated tag pair is a matching pair '
+         '(regenerated fact). Balance of the complete output for every source is not proved; a tag stack over the tokenised output decides it on generated sources '
+         '(safe modes with HTML policy, and <-free sources at safe mode 0).',
+    note=COMMON_NOTE + 'Partial: quote nesting is a universal proof; lists and whole-output balance are exploration.',
+    technique='Lean 4 proof (inductive tree invariant of the quote fragmenter) + tag-stack oracle',
+    ref='7 C06'),
+ 'C07': dict(
+    text='Proved for the model, universally: the fragments of a replacement pass partition the text (nothing lost or duplicated); a replaced fragment is opaque to every later '
+         'definition and to the quote pass; definitions are applied in table order, and the generated table has the documented order and templates. The element '
+         'structure per construct kind is evaluated in the kernel on instances and checked by the term-grammar oracle (7 quotes + defined ones, 11 replacement forms, '
+         'nesting depth 3, every safe mode); no grammar-level theorem is proved.',
+    note=COMMON_NOTE + 'Partial: partition / opacity / order are universal proofs; term grammar -> expected html is exploration.',
+    technique='Lean 4 proof (partition by induction with regex search bounds) + term-grammar oracle',
+    ref='7 C07'),
+ 'C08': dict(
+    text='Proved for the model: reading a block to its closing delimiter and skipping blank lines do not depend on the lines that follow (they are carried along untouched); '
+         'every delimited-block step clears the block options and a written tag consumes the attributes (C12); definitions and options change only through their elements '
+         '(C04); the generated tables map each block kind to its element and headers to h + marker length for all six lengths (kernel evaluation). The sequencing theorem '
+         'for arbitrary blocks is not proved; the block-grammar oracle checks document output = concatenation of blocks rendered alone and containers = tag pair around content.',
+    note=COMMON_NOTE + 'Partial: locality components and kind-to-element facts are proofs; sequencing is exploration.',
+    technique='Lean 4 proof (reader locality by induction, regenerated table facts) + block-grammar oracle',
+    ref='7 C08'),
+ 'C10': dict(
+    text='Proved for the model: each of the 13 markers is recognised by the generated list rules with itself as list id and mapped to ul/ol/dl with li or dt/dd (decided over '
+         'the whole finite marker table in the kernel); after an item a next item whose id is on the stack of open lists is handed back to the enclosing lists, any other '
+         'id opens a child list inside the current item; two blank lines or end of input end the item loop. The marker-machine = tree-specification theorem is not proved; '
+         'generated list trees (depth 4, mixed kinds, attached blocks, blank lines, following block) are compared with the tree the generator built.',
+    note=COMMON_NOTE + 'Partial: classification table and the two branch theorems are proofs; the full tree equivalence is exploration.',
+    technique='Lean 4 proof (exhaustive kernel evaluation over the marker table, item-loop equations) + list-tree oracle',
+    ref='7 C10'),
+ 'C19': dict(
+    text='Proved for the model, as equations: each documented diagnostic is issued exactly under its condition and has no other effect - unterminated code/comment/division/quote '
+         'block iff the reader is at end of input after the search for the closing delimiter; illegal block option; unknown block name; (C11) undefined macro; (C20) illegal '
+         'option value; (C01) ill-formed replacement pattern; without a callback a diagnostic changes nothing and with one it only appends to the log. That the html of a '
+         'whole render is independent of the callback and that well-formed documents produce no diagnostic are not proved; the oracle renders generated well-formed '
+         'documents (zero diagnostics) and their single-fault mutations (exactly the expected diagnostic), with and without a callback.',
+    note=COMMON_NOTE + 'Partial: emission conditions are proofs; non-interference and the well-formed clause are exploration.',
+    technique='Lean 4 proof (emission equations) + fault-mutation oracle',
+    ref='7 C19'),
  'C03': dict(
     text='Proved for the model, universally: text that leaves through replaceSpecialChars has no < or > and every & starts one of its three entities; a group '
          'substituted for $n in any template contains no ", < or > whatever the source and macro table (it cannot end its attribute value or open a tag); '
